@@ -105,6 +105,11 @@ def extract(ctx):
 
     changed = X.self_writes()
     C.log(f"C20 extract: SelfWrites.lean {'rewritten' if changed else 'unchanged'} from {C.REPO}")
+    suspects = getattr(X.self_writes_scan, "suspects", [])
+    if suspects:
+        C.log("memoised module-level functions (process-wide caches; not an obligation, the history runs are widened): "
+              + "; ".join(" | ".join(e) for e in suspects[:5]))
+        ctx.escalate = True
 
 
 # ----------------------------------------------------------------------------- method specs -> live objects
@@ -1333,7 +1338,7 @@ def observe(case):
         entries, classes, n = X.self_writes_scan()
         gen_file = (X.GEN / "SelfWrites.lean")
         return {"entries": [list(e) for e in entries], "classes": len(classes), "frames": n,
-                "file_rows": gen_file.read_text().count("  ⟨") if gen_file.exists() else None}
+                "file_rows": (gen_file.read_text().split("def suspectMemos")[0].count("  ⟨")) if gen_file.exists() else None}
     if kind == "model":
         seq, at = final_sequence(case["hist"], case["probe"], case["positions"])
         return {"seq": seq, "at": at, "py": {s: _toy(s, seq) for s in ("stateless", "caching", "counting")},
